@@ -220,6 +220,19 @@ Theorem sc_algo_verdict_correct : forall alts orders, wf_profile alts orders ->
 Proof. exact Proofs.SCAlgo.sc_algo_verdict_correct. Qed.
 Print Assumptions sc_algo_verdict_correct.
 
+(* ---- shape (M) for is_single_crossing_conflict_sets: its literal mirror conflict_sets_algo
+        (Model/SCAlgo.v: conflict sets as sets of (min, max) pairs built by the double index loop, nested
+        subset tests, some first voter) equals the proved reference and decides SC exactly ---- *)
+Theorem conflict_sets_algo_eq : forall alts orders, wf_profile alts orders -> orders <> [] ->
+  conflict_sets_algo orders = sc_conflict_decide alts orders.
+Proof. exact Proofs.SCAlgo.conflict_sets_algo_eq. Qed.
+Print Assumptions conflict_sets_algo_eq.
+
+Theorem conflict_sets_algo_correct : forall alts orders, wf_profile alts orders -> orders <> [] ->
+  (conflict_sets_algo orders = true <-> SC alts orders).
+Proof. exact Proofs.SCAlgo.conflict_sets_algo_correct. Qed.
+Print Assumptions conflict_sets_algo_correct.
+
 (* the geometric core of completeness: a single-crossing profile embeds isometrically into the line
    (Kendall tau = distance of positions), so the signed distances to the first stored order are
    pairwise distinct and sorting them recovers a single-crossing sequence *)
@@ -304,4 +317,8 @@ Example ex_algo : sc_algo ex_alts ex_orders = Ok (Some ex_seq)
   /\ sc_algo ex_alts [[2;3;1;4]; [3;2;4;1]; [1;2;3;4]] = Ok (Some [[1;2;3;4]; [2;3;1;4]; [3;2;4;1]])
   /\ sc_algo ex_alts [[1;2;3;4]; [1;2;4;3]; [1;3;2;4]; [2;1;3;4]] = Ok None
   /\ sc_algo [1;2;3] ex_cyc = Ok None.
+Proof. repeat split; vm_compute; reflexivity. Qed.
+
+Example ex_csalgo : conflict_sets_algo ex_orders = true /\ conflict_sets_algo ex_cyc = false
+  /\ conflict_sets_algo [[1;2;3;4]; [1;2;4;3]; [1;3;2;4]; [2;1;3;4]] = false.
 Proof. repeat split; vm_compute; reflexivity. Qed.
